@@ -20,7 +20,7 @@ ASSUMPTIONS = [
 SHARDS = {"quick": 6, "thorough": 16}
 BUDGET_S = {"quick": 120, "thorough": 600}
 FLOORS = {"c01.queries": 1500, "c01.nontrivial": 500, "c01.path_checks": 10000, "c01.multiseg_with_deletions": 40,
-          "c01.stutter_phrase_queries": 300}
+          "c01.stutter_phrase_queries": 300, "c01.boundary_range_queries": 1500}
 
 PATHS = ["docs_for_query", "query.docs", "search", "unscored", "sorted", "terms", "limit", "page"]
 
@@ -240,5 +240,30 @@ def run(ctx):
                     ctx.case((model.qshape(q), sig, wname), nontrivial,
                              sample={"query": repr(q), "layout": wb["history"], "matched": len(exp), "live": len(built.live)}
                              if ctx.evaluations % 300 == 0 else None)
+                # boundary sweep: ranges whose bounds are values that really occur, in all four inclusive / exclusive
+                # combinations (term, numeric and date ranges decide membership exactly at the bounds)
+                if not big:
+                    from whoosh import query as _q
+                    brng = ctx.rng(idx, "bounds")
+                    live = list(built.live.values())
+                    words = sorted(set(w_ for d in live for w_ in (d.get("t") or "").split()))
+                    nums = sorted(set(d["n"] for d in live if d.get("n") is not None))
+                    dates = sorted(set(d["d"] for d in live if d.get("d") is not None))
+                    combos = [(False, False), (True, False), (False, True), (True, True)]
+                    brng.shuffle(combos)
+                    bq = []
+                    for sx, ex in combos[:3]:
+                        if len(words) >= 1:
+                            a_, b_ = sorted([brng.choice(words), brng.choice(words)])
+                            bq.append(_q.TermRange("t", a_, b_, sx, ex))
+                        if len(nums) >= 1:
+                            a_, b_ = sorted([brng.choice(nums), brng.choice(nums)])
+                            bq.append(_q.NumericRange("n", a_, b_, sx, ex))
+                        if len(dates) >= 1:
+                            a_, b_ = sorted([brng.choice(dates), brng.choice(dates)])
+                            bq.append(_q.DateRange("d", a_, b_, sx, ex))
+                    for q in bq:
+                        ctx.count("c01.boundary_range_queries")
+                        check_query(ctx, brng, built, s, q, wb, wname)
         finally:
             built.close()
